@@ -162,6 +162,15 @@ pub fn erl_cmp(a: &Value, b: &Value) -> Cmp {
             if x.len() != y.len() {
                 return x.len().cmp(&y.len()).into();
             }
+            // Keys are compared "in key order".  When that order is itself left open for two keys of one map (distinct
+            // identifiers, or keys whose comparison meets an open case further down), which key of one map meets which key
+            // of the other is open too: then only equality is decided (same keys exactly, values ==).
+            let open_order = |m: &[(Value, Value)]| (0..m.len()).any(|i| (i + 1..m.len()).any(|j| !matches!(erl_cmp(&m[i].0, &m[j].0), Cmp::Less | Cmp::Greater)));
+            if open_order(x) || open_order(y) {
+                let equal = x.iter().all(|(k, v)| y.iter().any(|(k2, v2)| k.canon() == k2.canon() && erl_cmp(v, v2) == Cmp::Equal));
+                // (keys that are == but of different numeric type: the statement is silent, as below)
+                return if equal { Cmp::Equal } else if loose_eq(a, b) { Cmp::Either } else { Cmp::Unspecified };
+            }
             let mut xs: Vec<&(Value, Value)> = x.iter().collect();
             let mut ys: Vec<&(Value, Value)> = y.iter().collect();
             xs.sort_by(|p, q| key_sort_cmp(&p.0, &q.0));
